@@ -21,7 +21,7 @@ ATTR_SRC = {
     'lit': 'title={{1}}', 'arr': 'data={{[1, "a"]}}', 'obj': 'info={{{{a: v1}}}}', 'arrow': 'cb={{() => v1}}', 'mem': 'm={{v1.x}}',
     'undef': 'u={{undefined}}', 'id': 'id="a"', 'bool': 'disabled',
 }
-TAG_SRC = {'div': 'div', 'svg': 'svg', 'Foo': 'Foo', 'C1': 'C1', 'KeepAlive': 'KeepAlive', 'Fragment': 'Fragment', 'mem': 'v1.Foo', 'cust': 'x-y'}
+TAG_SRC = {'div': 'div', 'svg': 'svg', 'Foo': 'Foo', 'C1': 'C1', 'KeepAlive': 'KeepAlive', 'Fragment': 'Fragment', 'mem': 'v1.Foo', 'memtag': 'v1.button', 'memsvg': 'v2.svg', 'cust': 'x-y'}
 
 
 def make_skeleton(spec):
@@ -43,6 +43,10 @@ def make_skeleton(spec):
                 sl = 'S%d' % i
                 leaves.append(Leaf(sl, 'str', 2))
                 parts.append('{%s}="{%s}"' % (name, sl))
+            elif kind == 'J':       # a JavaScript string literal in braces: the prop is the string's value, untouched
+                sl = 'J%d' % i
+                leaves.append(Leaf(sl, 'jsstrx', 3))
+                parts.append('{%s}={{"{%s}"}}' % (name, sl))
             elif kind == 'B':
                 parts.append('{%s}' % name)
             else:
@@ -326,14 +330,14 @@ def _norm_on(tokens):
 
 # ------------------------------------------------------------------ job lists
 MERGEABLE_ITEMS = ('cls', 'clsE', 'clsA', 'styE', 'sty', 'clk', 'clkA', 'onF')
-QUICK_ATTRS = ['S:2', 'B:5', 'E:3', 'cls', 'clsE', 'styE', 'clk', 'clkA', 'spI', 'spO', 'spC', 'on', 'ns', 'key', 'ref', 'obj', 'undef']
+QUICK_ATTRS = ['S:2', 'J:3', 'B:5', 'E:3', 'cls', 'clsE', 'styE', 'clk', 'clkA', 'spI', 'spO', 'spC', 'on', 'ns', 'key', 'ref', 'obj', 'undef']
 MORE_ATTRS = ['E:5', 'S:5', 'clsA', 'sty', 'onF', 'non', 'lit', 'arr', 'arrow', 'mem', 'id', 'bool']
 
 
 def jobs(tier):
     out = []
     tags_q = ['div', 'Foo', 'C1']
-    tags_all = ['div', 'svg', 'Foo', 'C1', 'KeepAlive', 'mem', 'cust']
+    tags_all = ['div', 'svg', 'Foo', 'C1', 'KeepAlive', 'mem', 'memtag', 'memsvg', 'cust']
     pal = QUICK_ATTRS if tier == 'quick' else QUICK_ATTRS + MORE_ATTRS
     # tag forms (symbolic names of every length up to the bound) with and without a custom-element pattern
     for n in range(1, (4 if tier == 'quick' else 6) + 1):
